@@ -208,6 +208,8 @@ Lemma dispatch_good : forall i a s d, gstr a = true -> gostr s = true ->
 Proof.
   intros i a s d Ha Hs. unfold dispatch.
   destruct consts_parts as [_ [_ [_ [_ [PH [_ [G _]]]]]]].
+  destruct (negb (str_eqb a IDENTREQUEST) && is_internal a).
+  { cbn [fst outcome_good]. split; [reflexivity|]. apply err_reply_good; [exact Ha|exact Hs|apply class_name_good]. }
   assert (Hs' : forall s', s' = (if str_eqb a IDENTREQUEST then None else s) -> gostr s' = true).
   { intros s' ->. destruct (str_eqb a IDENTREQUEST); [reflexivity|exact Hs]. }
   destruct (if str_eqb a IDENTREQUEST then (ident_alias, None, None) else (a, s, d)) as [[a' s'] d'] eqn:AL.
